@@ -120,6 +120,81 @@ impl LocalOp {
     }
 }
 
+/// A failure of the downlink's *input* (the channel on which the runtime delivers notifications).
+/// None of these is something a well-behaved link produces; the statement of C08 says nothing about
+/// what a downlink does with them, only the fold before and (after a new connection) after them is
+/// decided.
+#[derive(Clone, Debug, PartialEq, Eq, Hash)]
+pub enum Fault {
+    /// The writer of the input is dropped between two frames: end of stream.
+    Closed,
+    /// A frame whose first byte is not one of the four notification tags.
+    BadTag(u8),
+    /// An event frame (correct header) whose body cannot be a value of the downlink's type / a map
+    /// message; the number selects the body.
+    BadBody(u8),
+    /// An event frame whose header announces more bytes than arrive before the end of the stream.
+    Truncated,
+}
+
+/// Bodies that are no `u64`.
+const BAD_VALUE_BODIES: [&[u8]; 4] = [b"abc", b"@update(key:1) 2", b"\xff\xfe\xfd", b"{1,"];
+/// Bodies that are no map message with an `i32` key and a `u64` value.
+const BAD_MAP_BODIES: [&[u8]; 4] = [b"@bogus", b"7", b"@update(key:nokey) 5", b"\xff\xfe\xfd"];
+
+impl Fault {
+    /// Class used in signatures and counters (never data).
+    pub fn class(&self) -> &'static str {
+        match self {
+            Fault::Closed => "closed",
+            Fault::BadTag(_) => "bad-tag",
+            Fault::BadBody(_) => "bad-body",
+            Fault::Truncated => "truncated",
+        }
+    }
+
+    /// The bytes to write into the input and whether the writer is dropped afterwards.
+    pub fn bytes(&self, kind: Kind) -> (Vec<u8>, bool) {
+        let event = |body: &[u8], announced: usize| {
+            let mut v = vec![3u8];
+            v.extend_from_slice(&(announced as u64).to_be_bytes());
+            v.extend_from_slice(body);
+            v
+        };
+        match self {
+            Fault::Closed => (vec![], true),
+            Fault::BadTag(t) => (vec![*t], false),
+            Fault::BadBody(i) => {
+                let table = if kind == Kind::Value { &BAD_VALUE_BODIES } else { &BAD_MAP_BODIES };
+                let body = table[*i as usize % table.len()];
+                (event(body, body.len()), false)
+            }
+            Fault::Truncated => {
+                let body: &[u8] = if kind == Kind::Value { b"123" } else { b"@update(key:1) 2" };
+                (event(&body[..body.len() - 1], body.len() + 4), true)
+            }
+        }
+    }
+
+    pub fn show(&self) -> String {
+        match self {
+            Fault::Closed => "input-closed".into(),
+            Fault::BadTag(t) => format!("frame-with-tag({t})"),
+            Fault::BadBody(i) => format!("event-with-undecodable-body(#{i})"),
+            Fault::Truncated => "truncated-event-then-input-closed".into(),
+        }
+    }
+}
+
+pub fn gen_fault(rng: &mut Rng) -> Fault {
+    match rng.below(8) {
+        0..=2 => Fault::Closed,
+        3..=4 => Fault::BadTag(*rng.pick(&[0u8, 5, 0x7f, 0xff])),
+        5..=6 => Fault::BadBody(rng.below(4) as u8),
+        _ => Fault::Truncated,
+    }
+}
+
 #[derive(Clone, Debug, PartialEq, Eq, Hash)]
 pub enum Step {
     /// Deliver the frame (chunked at random), do not wait for it to be processed.
@@ -146,6 +221,28 @@ pub enum Step {
     /// is gone without any notification, the fold restarts with the next `linked`; no callback is
     /// demanded for it.
     Reconnected,
+    /// The input of the downlink fails (isolated by quiescence on both sides). Client: the task ends
+    /// (nothing later in the script can reach it). Hosted: the agent may ask for a new connection,
+    /// on which the rest of the script is delivered. Never reaches the reference walker: the parts
+    /// that use it build the effective script around it.
+    InputFault(Fault),
+    /// The consumer of the downlink's output stops (`false`) / resumes (`true`) reading. While it is
+    /// stalled the (small) output channel fills up and the downlink's writes are back-pressured. Not
+    /// a notification: nothing changes for the fold.
+    OutputGate(bool),
+    /// The local write is issued without waiting for quiescence before or after it (it races with
+    /// the frames around it and with the local operations next to it). Oracle: as `Local`.
+    LocalRacing(LocalOp),
+    /// `n` local writes, each followed by quiescence, with 20-digit values starting at `first`
+    /// (value: sets; map: updates of the distinct keys 100, 101, ...), issued until the handle
+    /// refuses one: enough bytes to fill the downlink's own write buffer while the consumer of the
+    /// output is stalled. Oracle: as that many `Local`s.
+    LocalFill { first: u64, n: u32 },
+    /// The downlink is told to stop: hosted `handle.stop()`; the client downlinks have no such call
+    /// and lose their handle instead (as `DropHandle`). `racing`: issued right behind the local
+    /// write before it, without quiescence in between ("set; stop"). Never reaches the reference
+    /// walker.
+    Stop { racing: bool },
 }
 
 impl Step {
@@ -158,6 +255,11 @@ impl Step {
             Step::DropHandle => "drop-local-handle".into(),
             Step::OutputFault => "output-reader-gone".into(),
             Step::Reconnected => "new-connection".into(),
+            Step::InputFault(f) => f.show(),
+            Step::OutputGate(open) => if *open { "output-reader-resumes".into() } else { "output-reader-stalls".into() },
+            Step::LocalRacing(op) => format!("{} (not isolated)", op.show()),
+            Step::LocalFill { first, n } => format!("{n} local writes from value {first}"),
+            Step::Stop { racing } => if *racing { "stop (right behind the write)".into() } else { "stop".into() },
         }
     }
 }
@@ -419,13 +521,20 @@ fn position_by_phase(rng: &mut Rng, steps: &[Step], flags: &Flags) -> usize {
     *rng.pick(&candidates)
 }
 
+/// A prefix of the script that ends at a point chosen evenly over the phases present in it, and the
+/// phase of the link at that point (any phase, also `before-link`: the empty prefix).
+pub fn cut_by_phase(rng: &mut Rng, steps: &[Step], flags: &Flags) -> (Vec<Step>, &'static str) {
+    let pos = position_by_phase(rng, steps, flags);
+    (steps[..pos].to_vec(), phases(steps, flags)[pos])
+}
+
 /// No local write at or after `from`: the handle is gone (or the write side is dead and the set
 /// channel is no longer drained, so further writes would only fill it).
 fn strip_locals_from(steps: &mut Vec<Step>, from: usize) {
     let tail: Vec<Step> = steps
         .drain(from..)
         .filter_map(|s| match s {
-            Step::Local(_) => None,
+            Step::Local(_) | Step::LocalRacing(_) | Step::LocalFill { .. } => None,
             Step::SplitLocal(n, _) => Some(Step::N(n)),
             other => Some(other),
         })
